@@ -21,6 +21,8 @@ import (
 	"flag"
 	"fmt"
 	"net"
+	"os"
+	"runtime"
 	"sort"
 	"strings"
 	"sync"
@@ -51,6 +53,16 @@ const (
 	stPostReadReplyBody
 	nStages
 )
+
+const (
+	faultNone = iota
+	faultNoPool
+	faultBadReply
+)
+
+const poolSize = 64
+
+var faultNames = []string{"none", "nopool", "badreply"}
 
 const (
 	sideCli = 0
@@ -180,14 +192,27 @@ func handlerStatus(code int32) *erpc.Status {
 	return erpc.NewStatus(code, "handler", "")
 }
 
-func onCall(ctx erpc.CallCtx) ([]byte, *erpc.Status) {
+// unencodable cannot be marshalled by any body codec: the first write of the REPLY fails.
+type unencodable struct{ Ch chan int }
+
+// badReply holds the seqs whose handler answers with an unencodable result.
+var badReply sync.Map
+
+func callResult(seq int32) interface{} {
+	if _, bad := badReply.Load(seq); bad {
+		return unencodable{make(chan int)}
+	}
+	return []byte("ok")
+}
+
+func onCall(ctx erpc.CallCtx) (interface{}, *erpc.Status) {
 	h := cur.byPath[0][ctx.ServiceMethod()]
 	if h == nil {
 		cur.rec.invoke(ctx.Seq(), 7777)
 		return nil, nil
 	}
 	cur.rec.invoke(ctx.Seq(), h.hid)
-	return []byte("ok"), handlerStatus(h.stat)
+	return callResult(ctx.Seq()), handlerStatus(h.stat)
 }
 
 func onPush(ctx erpc.PushCtx) *erpc.Status {
@@ -200,12 +225,12 @@ func onPush(ctx erpc.PushCtx) *erpc.Status {
 	return handlerStatus(h.stat)
 }
 
-func Hca(ctx erpc.CallCtx, arg *[]byte) ([]byte, *erpc.Status) { return onCall(ctx) }
-func Hcb(ctx erpc.CallCtx, arg *[]byte) ([]byte, *erpc.Status) { return onCall(ctx) }
-func Hcc(ctx erpc.CallCtx, arg *[]byte) ([]byte, *erpc.Status) { return onCall(ctx) }
-func Hpa(ctx erpc.PushCtx, arg *[]byte) *erpc.Status           { return onPush(ctx) }
-func Hpb(ctx erpc.PushCtx, arg *[]byte) *erpc.Status           { return onPush(ctx) }
-func Hpc(ctx erpc.PushCtx, arg *[]byte) *erpc.Status           { return onPush(ctx) }
+func Hca(ctx erpc.CallCtx, arg *[]byte) (interface{}, *erpc.Status) { return onCall(ctx) }
+func Hcb(ctx erpc.CallCtx, arg *[]byte) (interface{}, *erpc.Status) { return onCall(ctx) }
+func Hcc(ctx erpc.CallCtx, arg *[]byte) (interface{}, *erpc.Status) { return onCall(ctx) }
+func Hpa(ctx erpc.PushCtx, arg *[]byte) *erpc.Status                { return onPush(ctx) }
+func Hpb(ctx erpc.PushCtx, arg *[]byte) *erpc.Status                { return onPush(ctx) }
+func Hpc(ctx erpc.PushCtx, arg *[]byte) *erpc.Status                { return onPush(ctx) }
 
 var callFuncs = []interface{}{Hca, Hcb, Hcc}
 var pushFuncs = []interface{}{Hpa, Hpb, Hpc}
@@ -308,7 +333,7 @@ func prhRound(chain []*plug) []int {
 }
 
 // expected computes what the property prescribes for one message.
-func expected(gc, gs []*plug, isPush bool, h *handlerRec, hchain []*plug) msgObs {
+func expected(gc, gs []*plug, isPush bool, h *handlerRec, hchain []*plug, fault int) msgObs {
 	var o msgObs
 	pre, post := stPreWriteCall, stPostWriteCall
 	if isPush {
@@ -331,6 +356,9 @@ func expected(gc, gs []*plug, isPush bool, h *handlerRec, hchain []*plug) msgObs
 		if v, _ := runStage(stPreReadPushBody, hchain, &o.srv); v {
 			return o
 		}
+		if fault == faultNoPool {
+			return o // no goroutine for a PUSH: skipped after binding
+		}
 		if v, _ := runStage(stPostReadPushBody, hchain, &o.srv); v {
 			return o
 		}
@@ -346,17 +374,30 @@ func expected(gc, gs []*plug, isPush bool, h *handlerRec, hchain []*plug) msgObs
 		sstat = erpc.CodeNotFound
 	} else {
 		curc = hchain
+		replyFails := false
 		if v, code := runStage(stPreReadCallBody, hchain, &o.srv); v {
 			sstat = code
+		} else if fault == faultNoPool {
+			sstat = erpc.CodeInternalServerError // refused without running the handler
 		} else if v, code := runStage(stPostReadCallBody, hchain, &o.srv); v {
 			sstat = code
 		} else {
 			o.invoked = []int{h.hid}
 			sstat = h.stat
+			if fault == faultBadReply && h.stat == 0 {
+				// the regular reply cannot be written; a substitute 500 goes out, no stage again
+				replyFails = true
+				sstat = erpc.CodeInternalServerError
+			}
+		}
+		if replyFails {
+			runStage(stPreWriteReply, curc, &o.srv)
+			goto REPLYREAD
 		}
 	}
 	runStage(stPreWriteReply, curc, &o.srv)
 	runStage(stPostWriteReply, curc, &o.srv)
+REPLYREAD:
 	// reply reading on the caller's side
 	o.cliPRH = prhRound(gc)
 	if v, code := runStage(stPostReadReplyHeader, gc, &o.cli); v {
@@ -610,6 +651,10 @@ var handleEnter = map[erpc.Session]int{}
 
 func runC09(cfg *RunCfg) {
 	Quiet()
+	if os.Getenv("C09_LOG") != "" {
+		erpc.SetLoggerLevel("DEBUG")
+	}
+	erpc.SetGopool(poolSize, time.Minute) // small enough to be exhausted on purpose (fault nopool)
 	erpc.VerifSetGate(func(point string, s erpc.Session) {
 		if point == "handle.enter" {
 			gateMu.Lock()
@@ -739,7 +784,7 @@ func runC09(cfg *RunCfg) {
 				if hk == 0 {
 					srv.SetUnknownCall(func(ctx erpc.UnknownCallCtx) (interface{}, *erpc.Status) {
 						rec.invoke(ctx.Seq(), hid)
-						return []byte("unk"), nil
+						return callResult(ctx.Seq()), nil
 					}, insts(h.own)...)
 				} else {
 					srv.SetUnknownPush(func(ctx erpc.UnknownPushCtx) *erpc.Status {
@@ -831,15 +876,38 @@ func runC09(cfg *RunCfg) {
 
 		// ---- messages ----
 		type msg struct {
-			push bool
-			hid  int
-			path string
+			push  bool
+			hid   int
+			path  string
+			fault int // faultNone | faultNoPool | faultBadReply
 		}
 		var msgs []msg
 		var status []int32
 		var written []bool
+		var poolRelease chan struct{} // non-nil while the goroutine pool is kept exhausted
+		var probe []tev
+		vetoedCalls, _ := runStage(stPreWriteCall, csp.global(), &probe)
+		callsGetWritten := !vetoedCalls
+		var parked sync.WaitGroup
+		nextNoPoolCall := false
+		dropped := 0
 		for k := 0; k < 6; k++ {
 			m := msg{push: r.Intn(5) < 2, hid: noRoute, path: "/nowhere/x"}
+			switch f := r.Intn(100); {
+			case nextNoPoolCall:
+				m.fault, m.push = faultNoPool, false
+			case f < 14:
+				m.fault = faultNoPool
+				if k == 5 {
+					m.push = false
+				}
+			case f < 26 && !m.push:
+				m.fault = faultBadReply
+			}
+			if m.fault == faultNoPool && m.push && !callsGetWritten {
+				m.push = false // no CALL could close the window behind a skipped PUSH
+			}
+			nextNoPoolCall = m.fault == faultNoPool && m.push
 			hk := 0
 			if m.push {
 				hk = 1
@@ -856,9 +924,11 @@ func runC09(cfg *RunCfg) {
 				}
 			}
 			if len(same) == 0 && len(other) > 0 && r.Intn(5) > 0 { // mostly use the kind that has handlers
-				m.push = !m.push
-				hk = 1 - hk
-				same, other = other, same
+				if m.fault == faultNone {
+					m.push = !m.push
+					hk = 1 - hk
+					same, other = other, same
+				}
 			}
 			c := r.Intn(100)
 			switch {
@@ -875,6 +945,49 @@ func runC09(cfg *RunCfg) {
 			case c < 88 && len(other) > 0:
 				m.path = other[r.Intn(len(other))].path
 			}
+			if m.fault == faultNoPool && poolRelease == nil {
+				// every earlier message must have got its goroutine first
+				sofar := 0
+				for _, b := range written {
+					if b {
+						sofar++
+					}
+				}
+				if !WaitUntil(20*time.Second, func() bool {
+					gateMu.Lock()
+					defer gateMu.Unlock()
+					return handleEnter[srvSess] >= sofar-dropped
+				}) {
+					Must(fmt.Errorf("server did not take in the messages before the pool window"))
+				}
+				// exhaust the process-wide goroutine pool: park goroutines until Go refuses
+				poolRelease = make(chan struct{})
+				rel := poolRelease
+				// the pool has poolSize goroutines; this tree's two read loops hold two, so it is
+				// provably full once poolSize-2 more are parked (handlers still finishing free
+				// their goroutine a moment after returning: keep trying until the count is reached)
+				erpc.VerifWaitHandlers(srvSess)
+				erpc.VerifWaitHandlers(cliSess)
+				deadline := time.Now().Add(20 * time.Second)
+				for n := 0; n < poolSize-2; {
+					parked.Add(1)
+					if erpc.Go(func() { <-rel; parked.Done() }) {
+						n++
+						continue
+					}
+					parked.Done()
+					if time.Now().After(deadline) {
+						Must(fmt.Errorf("could not park %d goroutines (got %d)", poolSize-2, n))
+					}
+					runtime.Gosched()
+				}
+				if erpc.Go(func() {}) {
+					Must(fmt.Errorf("goroutine pool not exhausted"))
+				}
+			}
+			if m.fault == faultBadReply {
+				badReply.Store(int32(k+1), true)
+			}
 			before := atomic.LoadInt64(&wrote)
 			var code int32
 			if m.push {
@@ -883,10 +996,31 @@ func runC09(cfg *RunCfg) {
 				var res []byte
 				code = cliSess.Call(m.path, []byte("x"), &res).Status().Code()
 			}
+			wr := atomic.LoadInt64(&wrote) != before
+			if m.fault == faultNoPool && m.push && wr {
+				dropped++ // the read loop skips it: handle() never runs
+			}
+			if poolRelease != nil && !nextNoPoolCall {
+				// the CALL that just returned was answered on the read goroutine, after
+				// every earlier message of the window: the window is over
+				close(poolRelease)
+				poolRelease = nil
+				// the pool must be usable again before the next message is sent: every parked
+				// function has returned, and several goroutines can be had at the same moment
+				parked.Wait()
+				probe := make(chan struct{})
+				for n := 0; n < 8; n++ {
+					for !erpc.Go(func() { <-probe }) {
+						runtime.Gosched()
+					}
+				}
+				close(probe)
+			}
 			msgs = append(msgs, m)
 			status = append(status, code)
-			written = append(written, atomic.LoadInt64(&wrote) != before)
+			written = append(written, wr)
 		}
+		badReply = sync.Map{}
 		nw := 0
 		for _, b := range written {
 			if b {
@@ -896,10 +1030,20 @@ func runC09(cfg *RunCfg) {
 		ok := WaitUntil(20*time.Second, func() bool {
 			gateMu.Lock()
 			defer gateMu.Unlock()
-			return handleEnter[srvSess] >= nw
+			return handleEnter[srvSess] >= nw-dropped
 		})
 		if !ok {
-			Must(fmt.Errorf("server did not take in every written message"))
+			gateMu.Lock()
+			he := handleEnter[srvSess]
+			gateMu.Unlock()
+			buf := make([]byte, 1<<20)
+			n := runtime.Stack(buf, true)
+			for _, g := range strings.Split(string(buf[:n]), "\n\n") {
+				if strings.Contains(g, "startReadAndHandle") || strings.Contains(g, "gopool") || strings.Contains(g, "go_pool") {
+					fmt.Fprintln(os.Stderr, g, "\n")
+				}
+			}
+			Must(fmt.Errorf("server did not take in every written message: handled %d of %d-%d; msgs %+v written %v status %v", he, nw, dropped, msgs, written, status))
 		}
 		srvSess.Close() // graceful: waits for every handling context
 		cliSess.Close()
@@ -997,7 +1141,8 @@ func runC09(cfg *RunCfg) {
 			if m.push {
 				hk = 1
 			}
-			msgV = append(msgV, VL(kindSym(hk), VN(int64(m.hid))))
+			msgV = append(msgV, VL(kindSym(hk), VN(int64(m.hid)), VS(faultNames[m.fault])))
+			st.Count("fault:" + faultNames[m.fault])
 			obsV = append(obsV, o.val())
 			// the property, from the configuration alone
 			var h *handlerRec
@@ -1017,7 +1162,7 @@ func runC09(cfg *RunCfg) {
 					scope[p.id] = true
 				}
 			}
-			exp := expected(gcChain, gsChain, m.push, h, hchain)
+			exp := expected(gcChain, gsChain, m.push, h, hchain, m.fault)
 			evals++
 			cls := "unregistered"
 			if m.hid != noRoute {
@@ -1033,7 +1178,7 @@ func runC09(cfg *RunCfg) {
 			}
 			if o.val() != exp.val() {
 				key, what := classify(o, &exp, g.all, scope, m.push)
-				st.Fail(i, key, what, fmt.Sprintf("msg %d %s path=%s hid=%d | observed %s | prescribed %s | ops: %s", k, map[bool]string{false: "call", true: "push"}[m.push], m.path, m.hid, o.human(), exp.human(), human()))
+				st.Fail(i, key, what, fmt.Sprintf("msg %d %s fault=%s path=%s hid=%d | observed %s | prescribed %s | ops: %s", k, map[bool]string{false: "call", true: "push"}[m.push], faultNames[m.fault]+fmt.Sprint(msgs), m.path, m.hid, o.human(), exp.human(), human()))
 			}
 			if len(o.cli) > 0 && len(o.srv) > 0 && m.hid != noRoute {
 				nontrivial = true
